@@ -6,4 +6,5 @@ cd "$(dirname "$0")"
 { echo "-Q . RipV"; echo "-arg -w -arg -notation-overridden,-deprecated-hint-without-locality,-deprecated-instance-without-locality"; find Base Model Gen Proofs Props -name '*.v' | sort; } > _CoqProject.new
 if ! cmp -s _CoqProject.new _CoqProject; then mv _CoqProject.new _CoqProject; coq_makefile -f _CoqProject -o Makefile.coq >/dev/null; else rm _CoqProject.new; fi
 [ -f Makefile.coq ] || coq_makefile -f _CoqProject -o Makefile.coq >/dev/null
-exec make -f Makefile.coq -j"${COQ_JOBS:-16}" "$@"
+# every coqc call is bounded (a runaway conversion or sauto must not stall a check)
+exec make -f Makefile.coq -j"${COQ_JOBS:-16}" COQC="timeout ${COQ_FILE_TIMEOUT:-1200} coqc" "$@"
